@@ -1,6 +1,8 @@
 //! Verification harness: runs the working tree of /repo on cases written by the /verif checks.
 mod canon;
 mod cmd_feel;
+mod cmd_model;
+mod cmd_num;
 mod cmd_types;
 mod cmd_ws;
 
@@ -10,6 +12,8 @@ fn main() {
   match cmd.as_str() {
     "feel" => cmd_feel::main(),
     "ws" => cmd_ws::main(),
+    "model" => cmd_model::main(),
+    "num" => cmd_num::main(),
     "types" => cmd_types::main(),
     _ => {
       eprintln!("usage: dv feel|ws|types");
